@@ -2049,7 +2049,7 @@ func hasLayerHMax(m *Model, f *ssa.Function, seen map[*ssa.Function]bool) bool {
 				}
 			}
 		case ssa.CallInstruction:
-			if c := x.Common().StaticCallee(); c != nil && pkgPathOf(c) == pkgPathOf(f) {
+			if c := x.Common().StaticCallee(); c != nil && inModule(c) && len(c.Blocks) > 0 {
 				if hasLayerHMax(m, c, seen) {
 					found = true
 				}
